@@ -663,12 +663,15 @@ def config_origin_tables(tree):
     for m, q, f in tree.all_funcs():
         if m.rel.startswith("infretis/tools"):
             continue
+        fenv = None
         for d in [x for x in walk_local(f) if isinstance(x, ast.Dict)]:
             for k, v in zip(d.keys, d.values):
                 if not (isinstance(k, ast.Constant) and isinstance(k.value, str)):
                     continue
                 o = None
-                c = _cfg_chain(v, {})
+                if fenv is None:
+                    fenv = _cfg_env(f)  # locals that alias (a section of) the configuration
+                c = _cfg_chain(v, fenv)
                 if c:
                     o = tuple(c)
                 elif isinstance(v, ast.Attribute) and isinstance(v.value, ast.Name) and v.attr in props:
